@@ -491,6 +491,9 @@ def sources_for(stream: bytes, level: int):
         out.append(("file(handle at byte 6, read=None)", lambda: file_source(stream, 6), {}))
         out.append(("file(handle at byte 2, read=7)", lambda: file_source(stream, 2), {"buffer_read_size_bytes": 7}))
         out.append(("file(handle at end, read=None)", lambda: file_source(stream, n), {}))
+    # a file that lives on disk (has a descriptor; can be memory-mapped unless it is empty) behaves like any other file
+    out.append(("file(on disk, read=None)", lambda: file_source(stream, on_disk=True), {}))
+    out.append(("file(on disk, read=7)", lambda: file_source(stream, on_disk=True), {"buffer_read_size_bytes": 7}))
     # the progress display is cosmetic: same packets with it switched on, for every kind of source
     out.append(("bytes, show_progress", lambda: stream, {"show_progress": True}))
     out.append(("file(read=7), show_progress", lambda: file_source(stream), {"buffer_read_size_bytes": 7, "show_progress": True}))
